@@ -35,6 +35,7 @@ struct Th {
     stop: Stop,
     ctid: u64,
     has_timeout: bool,
+    deadline_ns: u64,
     blocked_seq: u64,
     role: &'static str,
     prio: i64,
@@ -65,6 +66,9 @@ pub struct Kernel {
     pub fiemap_flagbits: u64,
     pub getdents: String,
     pub wake_any: bool,
+    // probability per scheduling decision that simulated time jumps to the earliest timed wait's deadline although other threads
+    // could run ("everybody else was descheduled for that long"); 0 = time only jumps when nothing else can run
+    pub time_jump_p: f64,
 }
 
 pub struct Fault {
@@ -157,6 +161,10 @@ pub struct Sup {
     proj_loaded: bool,
     force_park: bool,
     force_next: Option<usize>,
+    sim_ns: u64,       // simulated CLOCK_MONOTONIC
+    real_base_ns: u64, // CLOCK_REALTIME = real_base_ns + sim_ns
+    time_rng: Rng,
+    vdso_off: bool,
     seg_cpu0: u64,
     pct_points: Vec<u64>,
     pct_low: i64,
@@ -308,6 +316,10 @@ impl Sup {
             proj_loaded: false,
             force_park: false,
             force_next: None,
+            sim_ns: 1_000_000_000_000,
+            real_base_ns: 0,
+            time_rng: Rng::new(seed, "time"),
+            vdso_off: false,
             seg_cpu0: 0,
             pct_points: Vec::new(),
             pct_low: -1,
@@ -488,6 +500,7 @@ impl Sup {
             stop: Stop::Fresh,
             ctid: 0,
             has_timeout: false,
+            deadline_ns: 0,
             blocked_seq: 0,
             role: "main",
             prio: 0,
@@ -620,15 +633,7 @@ impl Sup {
             let ready: Vec<usize> = (0..self.ths.len()).filter(|&i| self.ths[i].st == St::Ready).collect();
             if ready.is_empty() {
                 // a timed wait may expire
-                let mut timed: Vec<usize> =
-                    (0..self.ths.len()).filter(|&i| matches!(self.ths[i].st, St::Blocked(_)) && self.ths[i].has_timeout).collect();
-                if !timed.is_empty() {
-                    timed.sort_by_key(|&i| self.ths[i].blocked_seq);
-                    let i = timed[0];
-                    if let Stop::AtEntry(r) = std::mem::replace(&mut self.ths[i].stop, Stop::Running) {
-                        self.ths[i].stop = Stop::Woken(r, -(libc::ETIMEDOUT as i64));
-                    }
-                    self.ths[i].st = St::Ready;
+                if self.expire_earliest_timer() {
                     self.bump("timer-expiry");
                     continue;
                 }
@@ -641,6 +646,24 @@ impl Sup {
                 self.kill_all();
                 unsafe { libc::alarm(0) };
                 return Outcome::Deadlock(desc.join(","));
+            }
+            // simulated time: a little per scheduling decision; timed waits whose deadline has passed expire; and, as a fault, time may
+            // jump to the next deadline although other threads could run (they were "descheduled" for that long)
+            self.sim_ns += 10_000;
+            let due = (0..self.ths.len()).any(|j| matches!(self.ths[j].st, St::Blocked(_)) && self.ths[j].has_timeout && self.ths[j].deadline_ns <= self.sim_ns);
+            if due {
+                if self.expire_earliest_timer() {
+                    self.bump("timer-expiry");
+                    continue;
+                }
+            } else if self.cfg.kernel.time_jump_p > 0.0
+                && (0..self.ths.len()).any(|j| matches!(self.ths[j].st, St::Blocked(_)) && self.ths[j].has_timeout)
+                && self.time_rng.f64() < self.cfg.kernel.time_jump_p
+            {
+                if self.expire_earliest_timer() {
+                    self.bump("time-jump");
+                    continue;
+                }
             }
             if self.steps >= self.cfg.max_events {
                 self.kill_all();
@@ -674,6 +697,26 @@ impl Sup {
             self.ths[i].spun = false;
             self.resume(i);
         }
+    }
+
+    /// the timed waiter with the earliest deadline times out; the simulated clock moves to that deadline
+    fn expire_earliest_timer(&mut self) -> bool {
+        let mut timed: Vec<usize> =
+            (0..self.ths.len()).filter(|&i| matches!(self.ths[i].st, St::Blocked(_)) && self.ths[i].has_timeout).collect();
+        if timed.is_empty() {
+            return false;
+        }
+        timed.sort_by_key(|&i| (self.ths[i].deadline_ns, self.ths[i].blocked_seq));
+        let i = timed[0];
+        if self.ths[i].deadline_ns > self.sim_ns {
+            self.sim_ns = self.ths[i].deadline_ns;
+        }
+        if let Stop::AtEntry(r) = std::mem::replace(&mut self.ths[i].stop, Stop::Running) {
+            self.ths[i].stop = Stop::Woken(r, -(libc::ETIMEDOUT as i64));
+        }
+        self.ths[i].st = St::Ready;
+        self.ths[i].has_timeout = false;
+        true
     }
 
     fn bump(&mut self, k: &str) {
@@ -814,7 +857,12 @@ impl Sup {
             ptrace(libc::PTRACE_SYSCALL, tid, 0, 0);
             match wait_tid(tid) {
                 Ev::Syscall => return true,
-                Ev::Event(_) => continue,
+                Ev::Event(e) => {
+                    if e == libc::PTRACE_EVENT_EXEC {
+                        self.disable_vdso(tid);
+                    }
+                    continue;
+                }
                 Ev::Sig(s) => {
                     // should not happen between entry and exit; keep the signal for later (SIGSTOP is only ever sent by the
                     // supervisor itself and is never passed on)
@@ -959,6 +1007,90 @@ impl Sup {
         Some(true)
     }
 
+    /// The initial stack of the new image holds the auxiliary vector; retyping AT_SYSINFO_EHDR to AT_IGNORE makes the C library
+    /// find no vDSO, so that every time query is a system call the supervisor answers from the simulated clock.
+    fn disable_vdso(&mut self, tid: i32) {
+        let regs = getregs(tid);
+        let mut p = regs.rsp;
+        let argc = self.read_u64(p).unwrap_or(0);
+        p += 8 * (argc + 2); // argc, argv[0..argc], NULL
+        for _ in 0..4096 {
+            match self.read_u64(p) {
+                Some(0) => {
+                    p += 8;
+                    break;
+                }
+                Some(_) => p += 8,
+                None => return,
+            }
+        }
+        for _ in 0..64 {
+            let k = match self.read_u64(p) {
+                Some(k) => k,
+                None => return,
+            };
+            if k == 0 {
+                break;
+            }
+            if k == 33 {
+                // AT_SYSINFO_EHDR -> AT_IGNORE
+                if self.write_mem(p, &1u64.to_le_bytes()) {
+                    self.vdso_off = true;
+                }
+            }
+            p += 16;
+        }
+        let mut ts: libc::timespec = unsafe { std::mem::zeroed() };
+        unsafe { libc::clock_gettime(libc::CLOCK_REALTIME, &mut ts) };
+        self.real_base_ns = (ts.tv_sec as u64 * 1_000_000_000 + ts.tv_nsec as u64).saturating_sub(self.sim_ns);
+    }
+
+    fn clock_now(&mut self, clk: u64) -> u64 {
+        // every query moves time on a little, so that a loop polling the clock makes progress
+        self.sim_ns += 1_000;
+        match clk {
+            0 | 5 | 8 | 11 => self.real_base_ns + self.sim_ns, // REALTIME, REALTIME_COARSE, REALTIME_ALARM, TAI
+            _ => self.sim_ns,                                    // MONOTONIC, BOOTTIME, CPU clocks ...
+        }
+    }
+
+    /// clock_gettime / gettimeofday / time answered from the simulated clock; returns false if the thread went away
+    fn do_clock(&mut self, i: usize, regs: &Regs, name: &str) -> bool {
+        let a = args(regs);
+        let mut ret: i64 = 0;
+        match name {
+            "clock_gettime" => {
+                let t = self.clock_now(a[0]);
+                let mut b = Vec::with_capacity(16);
+                b.extend_from_slice(&((t / 1_000_000_000) as i64).to_le_bytes());
+                b.extend_from_slice(&((t % 1_000_000_000) as i64).to_le_bytes());
+                if !self.write_mem(a[1], &b) {
+                    ret = -(libc::EFAULT as i64);
+                }
+            }
+            "gettimeofday" => {
+                let t = self.clock_now(0);
+                if a[0] != 0 {
+                    let mut b = Vec::with_capacity(16);
+                    b.extend_from_slice(&((t / 1_000_000_000) as i64).to_le_bytes());
+                    b.extend_from_slice(&(((t % 1_000_000_000) / 1000) as i64).to_le_bytes());
+                    if !self.write_mem(a[0], &b) {
+                        ret = -(libc::EFAULT as i64);
+                    }
+                }
+            }
+            _ => {
+                let t = self.clock_now(0) / 1_000_000_000;
+                if a[0] != 0 {
+                    self.write_mem(a[0], &(t as i64).to_le_bytes());
+                }
+                ret = t as i64;
+            }
+        }
+        self.bump("clock-query");
+        self.skip(i, regs, ret)
+    }
+
     fn is_atomic_insn(word: u64) -> bool {
         // LOCK prefix (possibly after one legacy prefix), or xchg r, m (implicitly locked)
         let b = word.to_le_bytes();
@@ -1085,7 +1217,12 @@ impl Sup {
                 Ev::Syscall => {
                     self.force_park = false;
                 }
-                Ev::Event(_) => continue,
+                Ev::Event(e) => {
+                    if e == libc::PTRACE_EVENT_EXEC {
+                        self.disable_vdso(tid);
+                    }
+                    continue;
+                }
                 Ev::Sig(s) => {
                     if s == libc::SIGSTOP && self.force_park {
                         // a thread that spin-waits (no system call, no yield) for a thread parked in user space: the state cannot
@@ -1168,6 +1305,11 @@ impl Sup {
                         self.write_mem(a[0], &b);
                     }
                 }
+                Class::Clock => {
+                    if !self.do_clock(i, &regs, sc.name) {
+                        return;
+                    }
+                }
                 Class::Fcntl => {
                     if !self.to_exit_stop(i) {
                         return;
@@ -1181,6 +1323,19 @@ impl Sup {
                     }
                 }
                 Class::Sleep | Class::Yield => {
+                    if class == Class::Sleep {
+                        // the sleeper's time passes on the simulated clock
+                        let (tsp, abs) = if sc.name == "clock_nanosleep" { (a[2], a[1] & 1 != 0) } else { (a[0], false) };
+                        let t = self.read_u64(tsp).unwrap_or(0).saturating_mul(1_000_000_000).saturating_add(self.read_u64(tsp + 8).unwrap_or(0));
+                        if abs {
+                            let tm = if a[0] == 0 { t.saturating_sub(self.real_base_ns) } else { t };
+                            if tm > self.sim_ns {
+                                self.sim_ns = tm;
+                            }
+                        } else {
+                            self.sim_ns = self.sim_ns.saturating_add(t);
+                        }
+                    }
                     if !self.skip(i, &regs, 0) {
                         return;
                     }
@@ -1274,6 +1429,18 @@ impl Sup {
                 self.ths[i].st = St::Blocked(a[0]);
                 self.ths[i].blocked_seq = self.blocked_ctr;
                 self.ths[i].has_timeout = a[3] != 0;
+                if a[3] != 0 {
+                    let sec = self.read_u64(a[3]).unwrap_or(0);
+                    let nsec = self.read_u64(a[3] + 8).unwrap_or(0);
+                    let t = sec.saturating_mul(1_000_000_000).saturating_add(nsec);
+                    self.ths[i].deadline_ns = if cmd == 0 {
+                        self.sim_ns.saturating_add(t) // FUTEX_WAIT: relative
+                    } else if a[1] & 256 != 0 {
+                        t.saturating_sub(self.real_base_ns) // FUTEX_WAIT_BITSET | FUTEX_CLOCK_REALTIME: absolute wall-clock
+                    } else {
+                        t // absolute CLOCK_MONOTONIC
+                    };
+                }
                 self.ths[i].stop = Stop::AtEntry(*regs);
                 true
             }
@@ -1344,6 +1511,7 @@ impl Sup {
                     stop: Stop::Fresh,
                     ctid: if clear { ctid } else { 0 },
                     has_timeout: false,
+                    deadline_ns: 0,
                     blocked_seq: 0,
                     role: "?",
                     prio,
